@@ -146,6 +146,7 @@ class Engine(object):
         self.queries = 0
         self.int_mode = 'bv'
         self.deadline = None
+        self.branch_timeout_ms = None     # shorter budget for branch-feasibility queries (unknown = feasible, which is sound)
         self._reset_path([])
 
     # -- path state --------------------------------------------------------
@@ -254,6 +255,8 @@ class Engine(object):
                 return z3.unknown
         finally:
             timer.cancel()
+            if timer.is_alive():
+                timer.join(1.0)       # do not let a late interrupt leak into the next query
 
     def _check(self, extra=None):
         t0 = time.time()
@@ -298,8 +301,12 @@ class Engine(object):
         if self.pos < len(self.prefix):
             d = self.prefix[self.pos]
         else:
+            if self.branch_timeout_ms:
+                self.solver.set('timeout', self.branch_timeout_ms)
             rt = self._check(t)
             rf = self._check(z3.Not(t))
+            if self.branch_timeout_ms:
+                self.solver.set('timeout', self.timeout_ms)
             ft, ff = rt != z3.unsat, rf != z3.unsat
             if z3.unknown in (rt, rf):
                 self.notes.append('branch feasibility unknown (treated as feasible)')
@@ -362,26 +369,34 @@ class Engine(object):
                                                note=note, kind=kind))
             return True
         if r == z3.sat:
-            if backend.startswith('z3'):
-                self.solver.push()
-                self.solver.add(z3.Not(t))
-                r3 = self._guarded_check()
-                try:
-                    model = Model(self.solver.model()) if r3 == z3.sat else None
-                except z3.Z3Exception:
-                    model = None
-                self.solver.pop()
+            # A failure is only reported after a FRESH solver instance (no incremental state, no stale interrupt) has
+            # confirmed that path condition and negated clause are satisfiable together: branch-feasibility queries
+            # that came back `unknown` (treated as feasible) can otherwise lead to a spurious path.
+            fresh = z3.Solver()
+            fresh.set('timeout', max(self.timeout_ms, 20000))
+            fresh.add(*self.pc)
+            fresh.add(z3.Not(t))
+            r2 = fresh.check()
+            if r2 == z3.unsat:
+                self.obligations.append(Obligation(self.unit, label, self.path_id, DISCHARGED, backend + '+fresh', time.time() - t0,
+                                                   note=(note + ' ' if note else '') + '(incremental sat not confirmed by a fresh solver: path infeasible)',
+                                                   kind=kind))
+                return True
+            if r2 == z3.unknown:
+                self.obligations.append(Obligation(self.unit, label, self.path_id, UNKNOWN, backend, time.time() - t0,
+                                                   note=note or 'fresh solver returned unknown', kind=kind))
+                return False
+            try:
+                model = Model(fresh.model())
+            except z3.Z3Exception:
+                model = None
             ob = Obligation(self.unit, label, self.path_id, FAILED, backend, dt,
                             model=model.as_dict() if model else None, note=note, kind=kind)
-            ob_model = model
             self.obligations.append(ob)
-            self.last_failed_model = ob_model
+            self.last_failed_model = model
             # continue the path under the assumption that the clause held, so that later
             # obligations are judged on their own
-            try:
-                self.assume(SBool(t))
-            except PathEnd:
-                raise
+            self.assume(SBool(t))
             return False
         self.obligations.append(Obligation(self.unit, label, self.path_id, UNKNOWN, backend, dt,
                                            note=note or 'solver returned unknown', kind=kind))
